@@ -443,8 +443,13 @@ struct Probe {
 static PROBE: Mutex<Probe> = Mutex::new(Probe { held: false, release: false });
 static PROBE_CV: Condvar = Condvar::new();
 
+/// Hook point at which thread 1 is held: P_NEW_BEGIN (inside the constructor, slot not yet
+/// written), P_NEW_END (end of the constructor) or P_INIT_END (slot written, initialisation closure
+/// not yet finished: a caller that does not go through the Once gets through here).
+static HOLD_POINT: std::sync::atomic::AtomicU8 = std::sync::atomic::AtomicU8::new(vh::P_NEW_BEGIN);
+
 fn probe_hook(_table: u8, point: u8, _depth: u8) {
-  if TID.with(|t| t.get()) != Some(0) || point != vh::P_NEW_BEGIN {
+  if TID.with(|t| t.get()) != Some(0) || point != HOLD_POINT.load(std::sync::atomic::Ordering::SeqCst) {
     return;
   }
   let mut g = PROBE.lock().unwrap();
@@ -458,7 +463,8 @@ fn probe_hook(_table: u8, point: u8, _depth: u8) {
   }
 }
 
-pub fn run_probe(kind: u8, depth: u8) -> Value {
+pub fn run_probe(kind: u8, depth: u8, hold_point: u8) -> Value {
+  HOLD_POINT.store(hold_point, std::sync::atomic::Ordering::SeqCst);
   {
     let mut g = PROBE.lock().unwrap();
     g.held = false;
@@ -516,7 +522,7 @@ pub fn run_probe(kind: u8, depth: u8) -> Value {
   let r1 = t1.join().unwrap_or(Err("panic".to_string()));
   let r2 = t2.join().unwrap_or(Err("panic".to_string()));
   json!({
-    "probe": "done", "second_thread_completed_while_first_was_constructing": got_through,
+    "probe": "done", "hold_point": hold_point, "second_thread_completed_while_first_was_constructing": got_through,
     "constructions_while_held": count_while_held, "constructions": vh::new_count(table, depth),
     "t1": r1.clone().map(|v| v.to_string()), "t2": r2.clone().map(|v| v.to_string()),
     "same_object": r1.is_ok() && r1 == r2,
